@@ -43,6 +43,7 @@ type Contract struct {
 	Exports   []Clause // named post-state values (Label = name)
 	Created   []Clause // closure contracts: conditions checked where the closure value is made
 	Assumed   string   // non-empty: the body is not verified anywhere; the text says why
+	Lets      map[string]*SExpr // contract-chosen names for values (let name = expr)
 	Unclaimed [][2]string // obligation-name substrings not claimed by any property, with reasons
 	IsFuncType bool // contract on calls through values of a named func type
 	Params    []string
@@ -320,6 +321,19 @@ func ParseContracts(pkgPath, file string, text string) ([]*Contract, []*Def, err
 				sub, why = strings.TrimSpace(txt[:j]), strings.TrimSpace(txt[j+9:])
 			}
 			cur.Unclaimed = append(cur.Unclaimed, [2]string{sub, why})
+		case "let":
+			j := strings.Index(d.text, "=")
+			if j < 0 {
+				return nil, nil, fail(d, fmt.Errorf("let <name> = <expr>"))
+			}
+			le, err := ParseSpec(strings.TrimSpace(d.text[j+1:]))
+			if err != nil {
+				return nil, nil, fail(d, err)
+			}
+			if cur.Lets == nil {
+				cur.Lets = map[string]*SExpr{}
+			}
+			cur.Lets[strings.TrimSpace(d.text[:j])] = le
 		case "created":
 			// created requires <expr>: on a closure contract; checked at the point
 			// where the closure value is made, in the parent's context
